@@ -43,7 +43,7 @@ def use_repo():
 
 
 def canon(obj):
-    return json.dumps(obj, sort_keys=True, ensure_ascii=False, separators=(",", ":"))
+    return json.dumps(obj, sort_keys=True, ensure_ascii=False, separators=(",", ":"), default=repr)
 
 
 def digest(obj):
